@@ -157,6 +157,12 @@ for _pid, _sp in PROPS.items():
             _t["sample_mod"] = _THOROUGH_SAMPLING[_t["cfg"]]
         _th.append(_t)
     _sp["thorough"] = _th
+for _pid, _m, _c in (("C01", "MC_C01", "MC_C01_xl.cfg"), ("C07", "MC_COND", "MC_C07_xl.cfg"), ("C08", "MC_COND", "MC_C08_xl.cfg"),
+                     ("C09", "MC_COND", "MC_C09_xl.cfg"), ("C10", "MC_COND", "MC_C10_xl.cfg"), ("C06", "MC_PDF", "MC_C06_xl.cfg"),
+                     ("C13", "MC_PDF", "MC_C13a_xl.cfg"), ("C12", "MC_C01", "MC_C01_xl.cfg"), ("C15", "MC_C01", "MC_C01_xl.cfg")):
+    PROPS[_pid]["thorough"].append({"module": _m, "cfg": _c, "nprimes": 12, "timeout": 10800})
+    if _pid not in ("C12", "C15"):
+        PROPS[_pid]["quick"].append({"module": _m, "cfg": _c, "nprimes": 22 if _pid == "C01" else 12})
 PROPS["C03"]["thorough"].append({"module": "MC_C03", "cfg": "MC_C03b_thorough.cfg", "nprimes": 12, "timeout": 10800})
 
 NOT_APPLICABLE = {}
